@@ -122,6 +122,10 @@ fn run_l<L: Language + 'static>(c: &Mixed, obs: &mut Obs) -> Result<(), String> 
     run_ln::<L, ()>(c, obs, ())
 }
 
+fn run_modify(c: &Mixed, obs: &mut Obs) -> Result<(), String> {
+    run_ln::<Core, crate::analyses::WrapElim>(c, obs, crate::analyses::WrapElim)
+}
+
 fn run_analysis(c: &Mixed, obs: &mut Obs) -> Result<(), String> {
     crate::with_lang!(c.lang, L => run_ln::<L, MinSize>(c, obs, MinSize))
 }
@@ -317,6 +321,22 @@ pub fn property(tier: Tier) -> Property {
             panic_is_violation: true,
             render: |c: &Mixed| c.render(),
             rule: "as ops-core, over a 16-name alphabet: terms with up to 16 free slots (p / t3 over 4-6 slot leaves with mostly disjoint names), beyond the inline capacities (8, 10) of the library's slot sets and slot maps; unions by the unrelated / renamed-copy (redundancy) / context / cascade recipes only (no symmetric wide classes: the library enumerates a class's whole group); same invariants; not run in the explanations build (proof terms over such nodes take seconds)",
+            case_timeout_s: tier.pick(30, 120),
+            exhaustive: false,
+        }));
+    }
+    {
+        let mut cfg = MixedCfg::for_lang(LangId::Core);
+        cfg.max_ops = tier.pick(10, 16);
+        cfg.hist.namings = crate::tm::Naming::diverse();
+        cfg.hist.gen.ops = Some(vec!["v", "f2", "g3", "c0", "w", "w", "w", "p", "lam"]);
+        stages.push(Box::new(Stage {
+            name: "ops-core-modify-hook",
+            source: random(move || mixed_strategy(cfg.clone()), tier.pick(2000, 40_000)),
+            run: run_modify,
+            panic_is_violation: true,
+            render: |c: &Mixed| c.render(),
+            rule: "as ops-core, on e-graphs with an analysis whose modify hook asserts w(w(x)) = x by a union of its own (a class is merged away during the insertion that creates it; unions happen inside rebuilds); same invariants",
             case_timeout_s: tier.pick(30, 120),
             exhaustive: false,
         }));
